@@ -220,6 +220,28 @@ def overlap_family(rng, fixed=False):
     return f
 
 
+def branch_family(rng, nperm, exact=False):
+    """branching supertrait hierarchy (envgen.shape_branch); the TRAIT declarations are permuted:
+    random permutations of all items plus, for every trait, the variant with that trait moved to the end"""
+    p = eg.shape_branch(rng, exact=exact)
+    goals = eg.branch_goals(p)
+    f = Fam(p, goals, [eg.goal_text(g) for g in goals], "implied-bounds:branch")
+    vs = []
+    for _ in range(nperm):
+        vs.append(eg.permute(p, rng))
+    for ti in range(len(p.traits)):
+        q = p.copy()
+        q.order = [o for o in q.order if o != ("trait", ti)] + [("trait", ti)]
+        vs.append(q)
+    if exact:
+        q = p.copy()
+        idx = {t.name: i for i, t in enumerate(p.traits)}
+        q.order = [o for o in q.order if o[0] != "trait"] + [("trait", idx[n]) for n in ("A", "C", "D", "E", "B")]
+        vs.insert(0, q)
+    f.fixed = vs
+    return f
+
+
 def gen_families(ctx):
     rng = ctx.rng
     fams = []
@@ -243,6 +265,9 @@ def gen_families(ctx):
     fams.append(pair_family(rng, [pg.adt("Pair", pg.adt("A"), pg.adt("A")), pg.adt("Pair", pg.adt("B"), pg.adt("C"))]))
     for _ in range(ctx.n(4, 40)):
         fams.append(pair_family(rng))
+    fams.append(branch_family(rng, ctx.n(4, 10), exact=True))
+    for _ in range(ctx.n(2, 20)):
+        fams.append(branch_family(rng, ctx.n(4, 10)))
     fams.append(overlap_family(rng, fixed=True))
     for _ in range(ctx.n(3, 30)):
         fams.append(overlap_family(rng))
@@ -390,7 +415,7 @@ def run(ctx):
             univ = pg.universe(f.prog, depth=2, limit=8)
             tuples = list(itertools.product(univ, repeat=len(evars)))[:60]
             cands = [[pg.ty_model(t, st, lambda k: k) for t in tp] for tp in tuples]
-            cexprs.append((["P%d" % fi], logic.bb("f7q_query 200 P%d %s %s" % (fi, sx.to_coq(q), sx.to_coq(cands)))))
+            cexprs.append((["P%d" % fi], logic.bb("f7q_query 200 P%d %s %s || f7n_order_query 200 P%d %s %s" % (fi, sx.to_coq(q), sx.to_coq(cands), fi, sx.to_coq(q), sx.to_coq(cands)))))
         ccodes = eg.coq_codes_retry(ctx, "f7q", defs, cexprs, IMPORTS, ["Props/C13.vo"])
         f7q = {k: (c == 1) for k, c in zip(cand_items, ccodes)}
     for f, gi, sname, vi, a0, a1 in rest:
